@@ -215,7 +215,7 @@ macro_rules! fixed_lookup {
         });
     };
 }
-fixed_lookup!(fixed_lookup_p4, 4);
+fixed_lookup!(fixed_lookup_p3, 3);
 fixed_lookup!(fixed_lookup_p8, 8);
 
 // ------------------------------------------------------------------ uniform (C03, C09 narrowing, C19)
@@ -265,44 +265,59 @@ harness!(uniform_rejects, unwind = 4, |s| {
 });
 
 // ------------------------------------------------------------------ C05: conversions agree bit for bit
-harness!(conversions_contiguous_p4, unwind = 20, |s| {
-    let probs: [u8; 3] = s.arr_u8::<3>();
-    let sym = s.usize();
-    let q = s.u8();
-    s.assume(q < 16 && sym < 3);
-    let r = ContiguousCategoricalEntropyModel::<u8, Vec<u8>, 4>::from_nonzero_fixed_point_probabilities(&probs[..], false);
-    if let Ok(m) = r {
-        let want_e = m.left_cumulative_and_probability(sym);
-        let want_d = m.quantile_function(q);
-        // a view versus its owner
-        let v = m.as_view();
-        assert!(v.left_cumulative_and_probability(sym) == want_e);
-        assert!(v.quantile_function(q) == want_d);
-        // iterated symbol table versus direct queries
-        let mut k = 0usize;
-        for (sy, c, p) in m.symbol_table() {
-            assert!(sy == k);
-            assert!(m.left_cumulative_and_probability(sy) == Some((c, p)));
-            k += 1;
+// each conversion in its own (small) harness: two symbols, P = 3
+macro_rules! conversion {
+    ($name:ident, |$m:ident, $sym:ident, $q:ident, $want_e:ident, $want_d:ident| $body:block) => {
+        harness!($name, unwind = 12, |s| {
+            let p0 = s.u8();
+            s.assume(p0 >= 1 && p0 <= 7);
+            let probs = [p0, 8 - p0];
+            let $sym = s.usize();
+            let $q = s.u8();
+            s.assume($q < 8 && $sym < 2);
+            let $m = ContiguousCategoricalEntropyModel::<u8, Vec<u8>, 3>::from_nonzero_fixed_point_probabilities(&probs[..], false).ok().unwrap();
+            let $want_e = $m.left_cumulative_and_probability($sym);
+            let $want_d = $m.quantile_function($q);
+            assert!($want_e.is_some());
+            $body
+            core::mem::forget($m);
+        });
+    };
+}
+conversion!(conv_view, |m, sym, q, want_e, want_d| {
+    let v = m.as_view();
+    assert!(v.left_cumulative_and_probability(sym) == want_e);
+    assert!(v.quantile_function(q) == want_d);
+});
+conversion!(conv_symbol_table, |m, sym, q, want_e, want_d| {
+    let mut k = 0usize;
+    for (sy, c, p) in m.symbol_table() {
+        assert!(sy == k);
+        if sy == sym {
+            assert!(Some((c, p)) == want_e);
         }
-        assert!(k == 3);
-        // lookup-table decoder versus searched decoder
-        let l = m.to_lookup_decoder_model();
-        assert!(l.quantile_function(q) == want_d);
-        // generic decoder / generic lookup decoder
-        let g = m.to_generic_decoder_model();
-        assert!(g.quantile_function(q) == want_d);
-        let gl = m.to_generic_lookup_decoder_model();
-        assert!(gl.quantile_function(q) == want_d);
-        // float views equal p / 2^P exactly (C18)
-        let (_, p) = want_e.unwrap();
-        let f: f64 = m.floating_point_probability(sym);
-        assert!(f == p.get() as f64 / 16.0);
-        core::mem::forget(l);
-        core::mem::forget(g);
-        core::mem::forget(gl);
-        core::mem::forget(m);
+        k += 1;
     }
+    assert!(k == 2);
+    // float views equal p / 2^P exactly (C18)
+    let (_, p) = want_e.unwrap();
+    let f: f64 = m.floating_point_probability(sym);
+    assert!(f == p.get() as f64 / 8.0);
+});
+conversion!(conv_lookup, |m, sym, q, want_e, want_d| {
+    let l = m.to_lookup_decoder_model();
+    assert!(l.quantile_function(q) == want_d);
+    core::mem::forget(l);
+});
+conversion!(conv_generic_decoder, |m, sym, q, want_e, want_d| {
+    let g = m.to_generic_decoder_model();
+    assert!(g.quantile_function(q) == want_d);
+    core::mem::forget(g);
+});
+conversion!(conv_generic_lookup, |m, sym, q, want_e, want_d| {
+    let gl = m.to_generic_lookup_decoder_model();
+    assert!(gl.quantile_function(q) == want_d);
+    core::mem::forget(gl);
 });
 
 // ------------------------------------------------------------------ float tables (C03 / C05 / C19)
@@ -364,6 +379,19 @@ harness!(lazy_vs_eager_f32_n3_p4, unwind = 7, |s| {
     s.assume(q < 16);
     assert!(eager.quantile_function(q) == lazy.quantile_function(q));
     core::mem::forget(eager);
+});
+
+// the lazy model itself satisfies Valid (C03), incl. tables with leading / interior zero entries
+harness!(lazy_f32_n3_p4_valid, unwind = 7, |s| {
+    let probs: [f32; 3] = [s.f32(), s.f32(), s.f32()];
+    s.assume(probs[0] >= 0.0 && probs[1] >= 0.0 && probs[2] >= 0.0);
+    s.assume((probs[0] + probs[1]) + probs[2] == 1.0);
+    let lazy = LazyContiguousCategoricalEntropyModel::<u8, f32, _, 4>::from_floating_point_probabilities_fast(&probs[..], Some(1.0)).ok().unwrap();
+    let q = s.u8();
+    let big = s.usize();
+    check_valid::<_, 4>(&lazy, 3, q, big);
+    vcover!(probs[0] == 0.0 && probs[1] == 0.0);
+    vcover!(probs[0] == 0.0 && q == 0);
 });
 
 // ------------------------------------------------------------------ leaky quantiser over a stub distribution
@@ -476,9 +504,10 @@ impl Distribution for TableDistI16 {
 
 dispatch!(
     quantizer_wide_symbol_none,
+    lazy_f32_n3_p4_valid,
     fixed_contiguous_p8, fixed_contiguous_p4, fixed_contiguous_quantile_p8, fixed_contiguous_quantile_p4, fixed_infer_complete_p8, fixed_infer_complete_p4,
-    fixed_noncontig_p8, fixed_noncontig_p4, fixed_lookup_p4, fixed_lookup_p8,
-    uniform_u8_p8, uniform_u8_p5, uniform_rejects, conversions_contiguous_p4,
+    fixed_noncontig_p8, fixed_noncontig_p4, fixed_lookup_p3, fixed_lookup_p8,
+    uniform_u8_p8, uniform_u8_p5, uniform_rejects, conv_view, conv_symbol_table, conv_lookup, conv_generic_decoder, conv_generic_lookup,
     fast_f32_n3_p4_norm1, fast_f32_n2_p3_nonorm, fast_f32_n2_p3_anyinput, lazy_vs_eager_f32_n3_p4,
     quantizer_u8_p4_sup3
 );
